@@ -116,11 +116,8 @@ pub trait SimpleSerializer: Sized + Context {
         )
     }
 
-    fn serialize_unit_struct(&mut self, name: &'static str) -> Result<()> {
-        fail!(
-            in self,
-            "serialize_unit_struct is not supported",
-        )
+    fn serialize_unit_struct(&mut self, _: &'static str) -> Result<()> {
+        self.serialize_unit()
     }
 
     fn serialize_unit_variant(
